@@ -90,7 +90,7 @@ def planSound (c : CoreCell) (m : Option Method) (b : Option Bool) : Bool :=
    | _, _ => true)
 
 def qNoInternal (c : CoreCell) : Bool :=
-  decide (c.ax = .tooMany) || (decide (core c ≠ .err .assertion) && decide (core c ≠ .err .other))
+  decide (core c ≠ .err .assertion) && decide (core c ≠ .err .other)
 def qPlanSound (c : CoreCell) : Bool :=
   match core c with
   | .ok (m, b) => planSound c m b
@@ -105,18 +105,16 @@ theorem check_planSound : coreCheck qPlanSound = true := by decide +kernel
 theorem check_refines : coreCheckM none qRefines = true := by decide +kernel
 theorem check_converse : coreCheckM none qConverse = true := by decide +kernel
 
-/-- no assertion can fail unless more axes are requested than the labels have -/
-theorem core_no_internal (c : CoreCell) (hal : c.aligned = true) (hax : c.ax ≠ .tooMany) :
+/-- no assertion can fail anywhere in the chain -/
+theorem core_no_internal (c : CoreCell) (hal : c.aligned = true) :
     core c ≠ .err .assertion ∧ core c ≠ .err .other := by
   have h := coreCheck_forall check_noInternal c hal
-  simp only [qNoInternal, Bool.or_eq_true, Bool.and_eq_true, decide_eq_true_eq] at h
-  rcases h with h | h
-  · exact absurd h hax
-  · exact h
+  simp only [qNoInternal, Bool.and_eq_true, decide_eq_true_eq] at h
+  exact h
 
-/-- with more reduced axes than label dimensions the request dies in `assert nax <= by_.ndim` -/
-theorem core_internal_counterexample :
-    core (mkCore .plain none none false false .tooMany false true .mapReduce true true) = .err .assertion := by
+/-- more reduced axes than label dimensions: a clean refusal (formerly `assert nax <= by_.ndim`, finding C19-F6) -/
+theorem core_too_many_axes_refused :
+    core (mkCore .plain none none false false .tooMany false true .mapReduce true true) = .err .valueError := by
   decide +kernel
 
 theorem core_plan_sound (c : CoreCell) (hal : c.aligned = true) (m : Option Method) (b : Option Bool)
